@@ -34,6 +34,12 @@
 //!   `bk:fixed|exp|fn` (`fixed_backoff` / `exponential_backoff` / `backoff(f)`).
 //! `arrive … off=1`: the request is made — `poll_ready`, `call`, first poll — on a plain OS thread OUTSIDE any tokio context; the
 //! call future is handed back and polled by the case's runtime from then on (for stacks with `executor` outermost).
+//! `arrive … clonepanic=1`: the error this request's inner calls produce panics the first time it is cloned (see `SErr::clone`;
+//! for stacks whose innermost layer is coalesce and that have no twin: the copy for the waiters is the first clone).
+//! `arrive … gone=1`: fire-and-forget — `poll_ready`, `call`, and the call future is DROPPED at once (both stacks), never polled,
+//! before the runtime had a turn (so before any task a layer spawned in `call` was polled): no answer, no `result` line
+//! (`#drop <c> <t> gone`). What a layer that moves the call into a task of its own (executor) must still do is stated by the
+//! model: the request is forwarded (see `TR.Stack.machine`, `unforwarded`).
 //! Every answer of the observed stack is also recorded as `@fin=<c>:<answer>` (spaces as `_`) on the operation that produced
 //! it: the model driver answers with ITS `result` line for the request — the answer `TR.Stack.denote` predicts from the layers'
 //! configurations and the request's scripted outcomes wherever it predicts one, the observed answer otherwise.
@@ -75,8 +81,26 @@ use std::time::Duration;
 use tower::util::BoxCloneService;
 use tower::{Layer, Service, ServiceExt};
 
-#[derive(Clone, Debug, PartialEq)]
+#[derive(Debug, PartialEq)]
 pub struct SErr(pub String);
+/// `arrive … clonepanic=1`: the ERROR this request's inner call produces panics the first time it is cloned — `Clone` of the
+/// error type is code of the wrapped service (a layer that copies results, coalesce, must cope with it unwinding). Only the
+/// error as the inner service produced it (`ierr<k>:<serial>`, unwrapped) is armed: the copy the innermost layer makes.
+static CP_TAGS: Mutex<BTreeSet<u64>> = Mutex::new(BTreeSet::new());
+static CP_ERRS: Mutex<BTreeSet<String>> = Mutex::new(BTreeSet::new());
+static CP_DONE: Mutex<BTreeSet<String>> = Mutex::new(BTreeSet::new());
+impl Clone for SErr {
+    fn clone(&self) -> SErr {
+        let armed = {
+            let mut e = CP_ERRS.lock().unwrap_or_else(|e| e.into_inner());
+            !e.is_empty() && e.remove(&self.0)
+        };
+        if armed {
+            panic!("Clone of the inner service's error panics (clonepanic=1)");
+        }
+        SErr(self.0.clone())
+    }
+}
 impl std::fmt::Display for SErr {
     fn fmt(&self, f: &mut std::fmt::Formatter<'_>) -> std::fmt::Result {
         write!(f, "{}", self.0)
@@ -218,6 +242,14 @@ where
                     Err(e) => format!("err:{}", e.0),
                 };
                 ev(&self.sh, self.b, format!("ret {} {} {}", self.k, self.tag, s.replace(' ', "_")));
+                if let Err(e) = &r {
+                    // `clonepanic=1`: the inner service's own error (not yet wrapped by any layer) is armed, once
+                    if e.0.starts_with("ierr") && CP_TAGS.lock().unwrap_or_else(|e| e.into_inner()).contains(&self.tag)
+                        && CP_DONE.lock().unwrap_or_else(|e| e.into_inner()).insert(e.0.clone())
+                    {
+                        CP_ERRS.lock().unwrap_or_else(|e| e.into_inner()).insert(e.0.clone());
+                    }
+                }
                 Poll::Ready(r)
             }
             Poll::Pending => Poll::Pending,
@@ -528,6 +560,7 @@ impl Prober {
                     None
                 }
             },
+            Started::Gone => None,
         };
         drop(svc);
         if let Some(s) = out {
@@ -1113,6 +1146,19 @@ enum Started {
     /// answered before a call future existed (`readyerr:…`, `notready`, `panic`)
     Done(String),
     Fut(BoxFuture<'static, String>),
+    /// `gone=1`: the call was made and its future dropped at once, never polled
+    Gone,
+}
+/// `arrive … gone=1`: fire-and-forget — the caller drops the call future right after `call()`, before it was ever polled
+/// and before the runtime had a turn (`let _ = svc.call(req);`, an outer `select!` that has lost interest already)
+fn forget(st: Started, gone: bool) -> Started {
+    match st {
+        Started::Fut(f) if gone => {
+            let _ = catch_unwind(AssertUnwindSafe(move || drop(f)));
+            Started::Gone
+        }
+        st => st,
+    }
 }
 
 fn bottom<I>(kind: &str, inner: I, cl: usize) -> BoxSvc
@@ -1167,6 +1213,9 @@ impl Stack {
             p.ensure_svc(&self.svc);
         }
         let req = Req::new(c, kv);
+        if kv.u64("clonepanic", 0) == 1 && !self.quiet {
+            CP_TAGS.lock().unwrap_or_else(|e| e.into_inner()).insert(req.tag);
+        }
         let held = kv.str("how", "clone") == "held";
         let mut svc = if held {
             match self.held.take() {
@@ -1364,6 +1413,9 @@ impl Adapter {
         }
     }
     pub fn new(kv: &Kv) -> Adapter {
+        CP_TAGS.lock().unwrap_or_else(|e| e.into_inner()).clear();
+        CP_ERRS.lock().unwrap_or_else(|e| e.into_inner()).clear();
+        CP_DONE.lock().unwrap_or_else(|e| e.into_inner()).clear();
         let layers: Vec<String> = kv.str("layers", "").split(',').filter(|s| !s.is_empty()).map(|s| s.to_string()).collect();
         let lp = kv.u64("lp", 0);
         let spawning = layers.iter().filter(|l| layer_spawns(l)).count() + (kv.str("inner", "strict") == "buffer") as usize;
@@ -1389,6 +1441,7 @@ impl Adapter {
 impl Mw for Adapter {
     /// `arrive c tag=… inner=… [how=clone|held] [polls=<n>]`
     fn arrive(&mut self, c: usize, kv: &Kv) -> Option<CallFut> {
+        let gone = kv.u64("gone", 0) == 1;
         let (a, b) = if kv.u64("off", 0) == 1 {
             // `off=1`: the caller lives on a plain OS thread with NO tokio context: `poll_ready`, `call` and the first poll
             // of the call future happen there (both stacks, in the usual order); the future is then handed back to the
@@ -1398,7 +1451,7 @@ impl Mw for Adapter {
             let (main, twin) = (&mut self.main, &mut self.twin);
             let r = std::thread::scope(|s| {
                 let h = std::thread::Builder::new().name("off-runtime".into()).spawn_scoped(s, move || {
-                    let first = |st: Started| match st {
+                    let first = |st: Started| match forget(st, gone) {
                         Started::Fut(mut f) => match poll_once(&mut f) {
                             Poll::Ready(ans) => Started::Fut(Box::pin(std::future::ready(ans))),
                             Poll::Pending => Started::Fut(f),
@@ -1422,8 +1475,8 @@ impl Mw for Adapter {
                 }
             }
         } else {
-            let a = self.main.start(c, kv);
-            let b = self.twin.as_mut().map(|t| t.start(c, kv));
+            let a = forget(self.main.start(c, kv), gone);
+            let b = self.twin.as_mut().map(|t| forget(t.start(c, kv), gone));
             (a, b)
         };
         let tp = self.twin.as_ref().and_then(|t| t.pr.clone());
@@ -1431,6 +1484,14 @@ impl Mw for Adapter {
             p.launch_wanted();
         }
         match (a, b) {
+            // fire-and-forget: no future, no answer (`#drop`: the caller is gone, like after a `drop` op)
+            (Started::Gone, b) => {
+                log_raw(format!("#drop {} {} gone", c, now_ms()));
+                if let Some(Started::Done(t)) = b {
+                    log(format!("twin-mismatch {} gone {}", c, t));
+                }
+                None
+            }
             (Started::Done(s), None) => {
                 obs_fin(c, &s);
                 log(format!("result {} {}", c, s));
@@ -1445,7 +1506,7 @@ impl Mw for Adapter {
                 }
                 None
             }
-            (Started::Done(s), Some(Started::Fut(_))) => {
+            (Started::Done(s), Some(Started::Fut(_) | Started::Gone)) => {
                 obs_fin(c, &s);
                 log(format!("result {} {}", c, s));
                 log(format!("twin-mismatch {} {} pending", c, s));
@@ -1455,6 +1516,7 @@ impl Mw for Adapter {
                 log(format!("twin-mismatch {} pending {}", c, t));
                 Some(f)
             }
+            (Started::Fut(f), Some(Started::Gone)) => Some(f),
             (Started::Fut(f), Some(Started::Fut(g))) => Some(Box::pin(Pair {
                 c,
                 a: Some(f),
